@@ -350,6 +350,7 @@ BUILTIN = {
     "std::nullptr_t": "void *",
 }
 FLOAT_TYPES = ("float", "double")
+ARITH_TYPES = ("float", "double", "int", "unsigned int", "long", "unsigned long", "long long", "unsigned long long")
 
 EXC_KINDS = ["std::domain_error", "std::invalid_argument", "std::logic_error", "std::out_of_range",
              "std::runtime_error", "std::overflow_error", "std::length_error", "std::bad_alloc",
@@ -1431,7 +1432,7 @@ class FuncEmitter:
         ct = self.em.strip_cv(e.get("computeResultType", {}).get("qualType", lt))
         ct = self.em.strip_cv(self.em.resolve_typedef(ct))
         rtxt = self.rv(r)
-        if ct in FLOAT_TYPES and op in ARITH_MACRO:
+        if ct in ARITH_TYPES and op in ARITH_MACRO:
             b, _, _ = self.em.ctype(lt)
             lhs_conv = ltxt if lt == ct else "(%s)%s" % (ct, ltxt)
             return "%s = (%s)%s(%s, %s, %s)" % (ltxt, b, ARITH_MACRO[op], ct, lhs_conv, rtxt)
@@ -1475,7 +1476,7 @@ class FuncEmitter:
                 return "(%s%s)" % (l, op) if e.get("isPostfix") else "(%s%s)" % (op, l)
             if op == "-":
                 t = self.em.strip_cv(self.em.resolve_typedef(self.em.strip_cv(e["type"].get("desugaredQualType") or e["type"]["qualType"])))
-                if t in FLOAT_TYPES:
+                if t in ARITH_TYPES:
                     return "IM_NEG(%s, %s)" % (t, self.rv(sub))
                 return "(-%s)" % self.rv(sub)
             if op in ("+", "!", "~"):
@@ -1494,7 +1495,7 @@ class FuncEmitter:
             if op in (".*", "->*"):
                 self.fail("pointer to member")
             t = self.em.strip_cv(self.em.resolve_typedef(self.em.strip_cv(e["type"].get("desugaredQualType") or e["type"]["qualType"])))
-            if op in ARITH_MACRO and t in FLOAT_TYPES:
+            if op in ARITH_MACRO and t in ARITH_TYPES:
                 return "%s(%s, %s, %s)" % (ARITH_MACRO[op], t, self.rv(l), self.rv(r))
             return "(%s %s %s)" % (self.rv(l), op, self.rv(r))
         if k == "CompoundAssignOperator":
@@ -1732,8 +1733,8 @@ def make_shims(em, cnames=None):
         cargs = []
         if is_method:
             cargs.append("this_")
-        for p, pt in zip(params, ptypes):
-            pn = p.get("name") or "_unnamed"
+        for pi, (p, pt) in enumerate(zip(params, ptypes)):
+            pn = p.get("name") or ("_unnamed%d" % (pi + (1 if is_method else 0)))
             cargs.append(pn if em.is_ref(pt) else "&" + pn)
         lines = [proto, "{", "    void *_a[] = { %s };" % (", ".join("(void *)" + x for x in cargs) if cargs else "0")]
         lines.append("    void real_%s(void **, void *);" % cname)
